@@ -29,8 +29,11 @@ func Main() {
 	r.SetRule("case = pre-state (origin, two generated contracts, 7 helper contracts, EOA) + message (call / static call / creation, call data, value, gas 0..30M; 1e14 for the depth templates) + instruction set (pre-/post-Galaxias); " +
 		"run twice on kvm.KVM (go-kardia StateDB behind a recording wrapper, tracer attached) and once on go-ethereum v1.9.15 core/vm (Istanbul); " +
 		"non-trivial = the KVM executed >= 5 instructions (each passed stack validation and gas); distinct by hash of (codes, input, entry, gas, value, instruction set)")
-	r.Assume("reference semantics = go-ethereum v1.9.15 core/vm with Istanbul rules for both KVM tables (the sweep shows the pre-Galaxias table is Istanbul minus CHAINID with the block-context differences)")
-	r.Assume("not compared: exact gas; any case in which a frame, precompile or code deposit ran out of gas on either side; cases executing 0x40-0x48; cases where a GAS result is not immediately consumed by a call or POP; calls to address 9 (blake2f exists only in the reference); creations returning more than 24576 bytes (the KVM's limit is 39231)")
+	r.Assume("reference = go-ethereum v1.9.15 core/vm on its own StateDB, Istanbul rules for both KVM tables (the sweep shows both tables equal Istanbul outside 0x40-0x48), with the upstream repair of CVE-2020-26241 applied to the reference (identity precompile returns a copy; v1.9.15 itself returns the caller's memory)")
+	r.Assume("gas parity is not compared: the KVM has its own gas schedule (Frontier-era constants, constant gas charged twice on dynamic-gas instructions before Galaxias, CREATE2 forwards all gas); any case in which a frame, a precompile or a code deposit ran out of gas on either side takes part only in the crash / gas-sanity / determinism / structural checks")
+	r.Assume("block-context opcodes 0x40-0x48 are excluded from the semantic comparison (KVM: GASLIMIT at 0x44, 0x45 invalid, CHAINID only after Galaxias); a case executing one of them is not compared")
+	r.Assume("also not compared: cases where a GAS result is not immediately consumed by a call or POP; calls to address 9 (blake2f exists only in the reference); creations returning more than 24576 bytes (the KVM's code size limit is 39231, EIP-170's is 24576); ecrecover (0x01) inputs with s above half the group order (the KVM returns nothing, Ethereum the signer: precompile internals are outside the property's instruction list; counted as observed:ecrecover_high_s_returns_empty)")
+	r.Assume("a pre-state is set on a fresh StateDB without committing it; account deletion at the end of a transaction (Finalise) is not part of the comparison")
 	if !r.IsChild() && os.Getenv("VERIF_ONLY_CASE") == "" {
 		func() {
 			defer func() {
